@@ -870,7 +870,7 @@ func (s *Spec) CheckC10(m *Model, st *State, lo, hi int) (kind, desc, outcome st
 	keys := s.Keys()
 	for _, k := range keys {
 		if g := st.Gets[k]; g.Err != "" {
-			return "unreadable key=" + k, fmt.Sprintf("point read of %s fails: %s", k, g.Err), ""
+			return "unreadable key=" + k + " err=" + strings.ReplaceAll(g.Err, " ", "_"), fmt.Sprintf("point read of %s fails: %s", k, g.Err), ""
 		}
 	}
 	for _, e := range st.Iter {
